@@ -120,6 +120,25 @@ def run_case(ctx: Ctx, case: dict) -> list[str]:
     return probs
 
 
+def _py(v):
+    return 0.5 if v == "frac" else float(v["f"]) if isinstance(v, dict) else v
+
+
+def replay_case(ctx: Ctx, rp: dict) -> list[str]:
+    """re-run a recorded history (values rebuilt from their model form: {"f": k} -> float(k), "frac" -> 0.5)"""
+    mreq = rp["postsel_model"]
+    ops = []
+    for o in mreq["ops"]:
+        if o[0] == "add":
+            args = []
+            for a in o[1:3]:
+                args.append(((tuple(_py(x) for x in a), a) if isinstance(a, list) else (_py(a), a)))
+            ops.append(["add", *args])
+        else:
+            ops.append(o)
+    return run_case(ctx, {"multi": mreq["multi"], "ops": ops, "states": mreq["states"]})
+
+
 def run_stream(ctx: Ctx, rng, n_cases: int) -> None:
     for i in range(n_cases):
         if ctx.out_of_time():
@@ -132,7 +151,7 @@ def run_stream(ctx: Ctx, rng, n_cases: int) -> None:
         ctx.case(json.dumps(describe(case), default=str), True, sample=describe(case) if i == 0 else None)
         if probs:
             oracle = [p for p in probs if p.startswith("oracle")]
-            rp = {"postsel": describe(case), "problems": probs}
+            rp = {"postsel": describe(case), "postsel_model": to_model(case), "problems": probs}
             if oracle:
                 ctx.violation(oracle[0], rp, sig={"kind": "postsel"})
             else:
